@@ -8,6 +8,7 @@ import (
 	"go/token"
 	"go/types"
 	"sort"
+	"strings"
 )
 
 type RetState struct {
@@ -31,10 +32,11 @@ func (f *Flow) absorb(g *Flow) {
 }
 
 type Exec struct {
-	fx   *FuncCtx
-	info *types.Info
-	nret int
-	sig  *types.Signature // overrides the enclosing function's signature (function literals)
+	fx       *FuncCtx
+	info     *types.Info
+	nret     int
+	sig      *types.Signature // overrides the enclosing function's signature (function literals)
+	deferred []*ast.CallExpr
 }
 
 func (x *Exec) ev(st *State) *Ev {
@@ -168,11 +170,6 @@ func (e *Ev) binopTyped(op token.Token, l, r Val, n ast.Node, t types.Type) Val 
 	return v
 }
 
-func (x *Exec) deferStmt(s *ast.DeferStmt, st *State) *Flow {
-	unsupp(s.Pos(), x.fx.prog.fset, "defer is outside the modelled subset")
-	return nil
-}
-
 func (x *Exec) ret(s *ast.ReturnStmt, st *State) *Flow {
 	x.nret++
 	r := &RetState{st: st, pos: s.Pos(), ord: x.nret}
@@ -197,6 +194,7 @@ func (x *Exec) ret(s *ast.ReturnStmt, st *State) *Flow {
 			r.vals = append(r.vals, e.coerceTo(e.ev(re), sig.Results().At(i).Type(), re))
 		}
 	}
+	x.runDeferred(st)
 	return &Flow{rets: []*RetState{r}}
 }
 
@@ -504,7 +502,23 @@ func (x *Exec) assignTo(l ast.Expr, v Val, st *State, define bool) {
 			x.assignTo(l.X, nb, st, false)
 			return
 		case VRef:
+			if x.fx.prog.fieldType(b.Elem, l.Sel.Name) == nil {
+				if inner, ok := x.embeddedHolder(b, l.Sel.Name, st); ok {
+					x.heapWrite(inner, l.Sel.Name, v, st, l)
+					return
+				}
+			}
 			x.heapWrite(b, l.Sel.Name, v, st, l)
+			return
+		case VSub:
+			ft := x.fx.prog.fieldType(b.Elem, b.Path+"."+l.Sel.Name)
+			if ft == nil {
+				unsupp(l.Pos(), x.fx.prog.fset, "no modelled field %s.%s.%s", b.Elem, b.Path, l.Sel.Name)
+			}
+			x.fx.writeField(st, b.Ref, b.Elem, b.Path+"."+l.Sel.Name, ft, v, l)
+			return
+		case VErr:
+			// Name, Line, Description of *Error only feed the message text
 			return
 		}
 		unsupp(l.Pos(), x.fx.prog.fset, "assignment to a field of %T", base)
@@ -860,6 +874,9 @@ func (fx *FuncCtx) clauseEv(st *State, pos token.Pos, results []Val) *Ev {
 		return nil, false
 	}
 	ev := &Ev{fx: fx, st: st, contract: true, lookup: lookup, pkg: fx.pkg.Types}
+	if fx.con != nil {
+		ev.modKeys = strings.Fields(fx.con.Options["modifies"])
+	}
 	if fx.entry != nil {
 		entry := fx.entry
 		ev.oldEv = &Ev{fx: fx, st: entry, contract: true, pkg: fx.pkg.Types, lookup: func(name string) (Val, bool) {
@@ -871,4 +888,23 @@ func (fx *FuncCtx) clauseEv(st *State, pos token.Pos, results []Val) *Ev {
 		}}
 	}
 	return ev
+}
+
+// embeddedHolder finds the embedded pointer field of r through which a promoted field is reached.
+func (x *Exec) embeddedHolder(r VRef, field string, st *State) (VRef, bool) {
+	stt := x.fx.prog.structByName(r.Elem)
+	if stt == nil {
+		return VRef{}, false
+	}
+	for i := 0; i < stt.NumFields(); i++ {
+		f := stt.Field(i)
+		if !f.Embedded() {
+			continue
+		}
+		if en, ok := elemName(f.Type()); ok && x.fx.prog.heapHasField(en, field) {
+			inner := x.fx.readField(st, r.T, r.Elem, f.Name(), f.Type(), false).(VRef)
+			return inner, true
+		}
+	}
+	return VRef{}, false
 }
